@@ -230,6 +230,15 @@ example : (parsePattern [115, 58, 47, 97, 47, 58, 105, 100]).toOption =
 example : (parsePattern [47, 58, 120, 47, 58, 120]).toOption = none ∧ (parsePattern [47, 97, 47]).toOption = none ∧
     (parsePattern []).toOption = none ∧ (parsePattern [47, 47]).toOption = none := by decide
 
+/-- OPEN (T2, not proved; no counterexample among 606 enumerated small patterns): the parser state machine is the
+inverse of rendering a pattern value as text … -/
+def C18_parse_render_open : Prop :=
+  ∀ (p : Pat), p.renderable = true → (parsePattern p.render).toOption = some p
+
+/-- … in both directions. -/
+def C18_render_parse_open : Prop :=
+  ∀ (s : Bytes) (p : Pat), parsePattern s = .ok p → p.render = s
+
 /-! ## A server that accepted its routes resolves every URI to at most one agent definition -/
 
 /-- Full statement: if `PlaneBuilder::build` accepts the routes then no URI is matched by two of them.
